@@ -21,6 +21,9 @@ package dtls
 //@ ensures handshake-first: called("Conn.writeApplicationData") ==> called("Conn.Handshake") && retErr("Conn.Handshake", 0) == nil && calledBefore("Conn.Handshake", "Conn.writeApplicationData")
 //@ ensures packet-from-constructor: called("Conn.writeApplicationData") ==> called("Conn.newApplicationDataPacket")
 //@ ensures one-record-per-write: ncalls("Conn.writeApplicationData") <= 1
+// (engine limit: the element of the one-packet slice cannot be read back after the call, only its length)
+//@ ensures exactly-one-packet: called("Conn.writeApplicationData") ==> len(argAs("Conn.writeApplicationData", 2, []*dtlsflight.Packet(nil))) == 1 && ncalls("Conn.newApplicationDataPacket") == 1
+//@ ensures constructed-from-payload: called("Conn.newApplicationDataPacket") ==> sameSlice(argBytes("Conn.newApplicationDataPacket", 1), payload)
 //@ end
 
 // contextWithClose starts a goroutine that only reads the Conn and cancels the returned context (assumption).
@@ -37,8 +40,19 @@ package dtls
 //@ ensures wf-kept: wfConn(c)
 //@ end
 
+// writeApplicationData: application records go out at the *current* local epoch (DTLS 1.2: every record header
+// is stamped with LocalEpoch before the batch is written; that LocalEpoch >= 1 after the handshake is the listed
+// FSM assumption), DTLS 1.3 data never reaches the DTLS 1.2 batch writer but the FSM's protected writer.
 //@ func Conn.writeApplicationData
-//@ noinline
+//@ watch Conn.writePacketsWithResult! ApplicationDataWriter.WriteApplicationData
+//@ requires args: wfConn(c) && forall(0, len(pkts), func(i int) bool { return pkts[i] != nil && pkts[i].Record != nil })
+//@ loop #1: current-epoch: epoch == old(CS(c).LocalEpoch()) && !called("Conn.writePacketsWithResult!")
+//@ loop #1: wf-kept: wfConn(c)
+//@ loop #1: stamped: idx > 0 ==> pkts[idx-1].Record.Header.Epoch == epoch
+//@ ensures dtls13-through-protected-writer: old(XV13(CS(c).LocalVersion)) ==> !called("Conn.writePacketsWithResult!")
+//@ ensures dtls12-through-batch-writer: !old(XV13(CS(c).LocalVersion)) ==> ncalls("Conn.writePacketsWithResult!") == 1 && !called("ApplicationDataWriter.WriteApplicationData")
+//@ ensures same-packets: called("Conn.writePacketsWithResult!") ==> sameSlice(argAs("Conn.writePacketsWithResult!", 2, pkts), pkts)
+//@ ensures same-packets-13: called("ApplicationDataWriter.WriteApplicationData") ==> sameSlice(argAs("ApplicationDataWriter.WriteApplicationData", 2, pkts), pkts)
 //@ end
 
 // DTLS 1.2 emit path: a packet that requests encryption is never returned as marshalled plaintext:
